@@ -51,6 +51,9 @@ _SHAPE_MS = MethodSet([
 ])
 
 
+ARITIES = [("one", "req", "opt", "kw"), ("opt", "one", "kw", "req"), ("one", "opt", "one", "opt"), ("kw", "one", "one", "kw"), ("req", "opt", "kw", "one")]
+
+
 def make_run_shapes(W, shape):
     """methods that shape the entry point differently (names of the positionals, an optional positional, a keyword-only parameter) come and
     go: after every operation the function must accept and reject the same CALL SHAPES as one built afresh from the remaining methods"""
@@ -168,18 +171,33 @@ def make_run(W, shape, known_active=None):
                     ok = False          # nothing is registered any more: no method may run
         return Verdict(ok, (), dict(api="Ovld", trace=trace), [f"probes{len(trace)}"], nontrivial=len(trace) >= 2)
 
+    arity = shape.get("arity")     # per method: one / req (a second required position) / opt (a second optional one) / kw (an optional keyword)
+
     def sig_of(m):
         t = W.cls(pool[m]["t"])
+        mode = arity[m % len(arity)] if arity else "one"
+        if mode in ("req", "opt"):
+            return Signature(types=(t, W.cls(pool[(m + 1) % len(pool)]["t"])), return_type=None, req_pos=2 if mode == "req" else 1, max_pos=2,
+                             req_names=frozenset(), vararg=False, priority=prio(m))
+        if mode == "kw":
+            return Signature(types=(t, ("flag", W.cls(pool[(m + 1) % len(pool)]["t"]))), return_type=None, req_pos=1, max_pos=1,
+                             req_names=frozenset(), vararg=False, priority=prio(m))
         return Signature(types=(t,), return_type=None, req_pos=1, max_pos=1, req_names=frozenset(), vararg=False,
                          priority=prio(m))
 
     def run_mtm(ctx):
-        def look(tm, c):
+        def look1(tm, key):
             try:
-                return ["ret", tm[(W.cls(c),)]]
+                return ["ret", tm[key]]
             except KeyError as e:
                 grp = e.args[1] if len(e.args) > 1 else ()
                 return ["AMB", sorted(x.handler for x in grp)] if grp else ["NOM"]
+
+        def look(tm, c):
+            if not arity:
+                return look1(tm, (W.cls(c),))
+            # every call shape the signatures admit: one position, two positions, one position and the keyword
+            return [look1(tm, (W.cls(c),)), look1(tm, (W.cls(c), W.cls(c))), look1(tm, (W.cls(c), ("flag", W.cls(c))))]
 
         tm = MultiTypeMap()
         live = []
@@ -260,7 +278,12 @@ def gen_shapes(tier, seed):
             shapes.append(dict(n=n, api="mtm", pool=rng.choice(mt_pools), ops=rng.choice(Hm)))
         for _ in range(100):
             shapes.append(dict(n=n, api="ovld", linked=True, pool=rng.choice(pools), ops=rng.choice(H4)))
+        for _ in range(120):
+            shapes.append(dict(n=n, api="mtm", pool=rng.choice(mt_pools), ops=rng.choice(Hm), arity=rng.choice(ARITIES)))
     else:
+        for p in mt_pools[::2]:
+            for h in Hm[::2]:
+                shapes.append(dict(n=n, api="mtm", pool=p, ops=h, arity=rng.choice(ARITIES)))
         for _ in range(1500):
             shapes.append(dict(n=n, api="ovld", linked=True, pool=rng.choice(pools), ops=rng.choice(H4 + H5)))
         for _ in range(3000):
